@@ -7,7 +7,7 @@ from .common import GRID
 vals = st.one_of(st.none(), st.integers(0, 9), st.sampled_from(["a", "b"]))
 delays = st.sampled_from(GRID)
 small = st.integers(0, 7)
-excs = st.tuples(st.sampled_from(["ValueError", "KeyError", "RuntimeError", "HErr", "HErr2"]),
+excs = st.tuples(st.sampled_from(["ValueError", "KeyError", "RuntimeError", "HErr", "HErr2", "HBase"]),
                  st.lists(st.one_of(st.integers(0, 3), st.sampled_from(["x", "y"])), max_size=2)).map(list)
 
 POLS = ["continue", "rewait", "propagate", "terminate", "raise"]
